@@ -256,7 +256,7 @@ pub fn defs() -> Vec<CheckDef> {
         shrink_cfg: &[],
         shrink_blobs: false,
         assumptions: &[
-            "process watchdog: a run silent for 240 s (60 s when re-executed alone) counts as non-termination",
+            "process watchdog: a run silent for 120 s (60 s when re-executed alone) counts as non-termination",
             "totality invariants only; decoded bytes are not compared here (C03/C04/C07 do that)",
             "x86-64 only; release and debug-assertions profiles",
         ],
